@@ -1226,7 +1226,23 @@ def sfunc(name: str, x, *more) -> Rat:
                     return Rat.atom(ca) if name == "cos" else Rat.atom(sa) * sign
         if x.is_zero():
             return Rat.of(1 if name == "cos" else 0)
-    if x.is_zero() and name in ("tanh", "atanh", "tan", "atan", "asin", "sqrt", "sinh"):
+        # general argument: paired atoms cos(y), sin(y) with sin^2 = 1 - cos^2, for the sign-normalised argument y = +-x
+        sign = 1
+        if x.den.is_const() and not x.num.is_zero():
+            _, lc = x.num.lead()
+            if lc * x.den.const_value() < 0:
+                sign = -1
+        y = x * sign
+        ck, sk = f"cos({y!r})", f"sin({y!r})"
+        if ck not in _FUNC_ATOMS:
+            from .ring import declare_square
+            _FUNC_ATOMS[ck] = Rat.atom(ck)
+            _FUNC_ATOMS[sk] = Rat.atom(sk)
+            _FUNC_ARG[ck] = y
+            _FUNC_ARG[sk] = y
+            declare_square(sk, Poly.const(1) - Poly.atom(ck) ** 2)
+        return _FUNC_ATOMS[ck] if name == "cos" else _FUNC_ATOMS[sk] * sign
+    if x.is_zero() and name in ("tanh", "atanh", "tan", "atan", "asin", "sqrt", "sinh", "log1p", "expm1"):
         return Rat.of(0)
     if x.is_zero() and name in ("exp", "cosh"):
         return Rat.of(1)
